@@ -98,6 +98,22 @@ theorem sugar_desugar_bool :
     compile .ff = compile (.coll .set .nil) ∧
     compile .tt = .lit (Lit.den .tt) ∧ compile .ff = .lit (Lit.den .ff) := by decide
 
+/-- a relation literal `{|n₁, n₂, …| (c₁, c₂, …), …}` is the set of its rows as tuples -/
+theorem sugar_desugar_rel (c : Caller) (env : Env) (rows : Expr) :
+    evalE c (.coll .rel rows) env = evalE c (.coll .set rows) env := rel_is_set_eval c env rows
+
+/-- … and neither the order in which a tuple's attributes are written nor the order of a relation's heading
+matters: `(nm: v, @: k)` = `(@: k, nm: v)` and `{|@, nm| (k, v), …}` = `{|nm, @| (v, k), …}` (`Lit.den`) -/
+theorem sugar_desugar_heading_order (nm : String) (h : "@" < nm) :
+    (∀ (c : Caller) (env : Env) (k v : Expr) (r : Val), evalE c (tupleOf nm k v) env = .ok r →
+      evalE c (.coll .tup (.cons nm .nil v (.cons "@" .nil k .nil))) env = .ok r) ∧
+    (∀ rows : List (Lit × Lit),
+      Lit.den (.rel ["@", nm] (rows.map fun r => [r.1, r.2])) = Lit.den (.rel [nm, "@"] (rows.map fun r => [r.2, r.1]))) :=
+  ⟨fun c env k v r hr => tuple_attr_order_eval c env nm h k v r hr, rel_heading_order_den nm h⟩
+
+/-- instances: `@item`, `@char`, `@value`, `@byte` -/
+example : "@" < "@item" ∧ "@" < "@char" ∧ "@" < "@value" ∧ "@" < "@byte" := by decide
+
 /-! ### the default binder -/
 
 /-- `lhs op f` (f not a function literal) is `lhs op \. f` -/
@@ -200,6 +216,19 @@ example : leafLit (.num 1) = some (.num 1) ∧ "x" ≠ "_" ∧
   decide
 
 /-! ### cond / && / || evaluate only the branches they select -/
+
+/-- `&&` and `||` return an OPERAND, not a boolean: `a && b` is `a` when `a` is false-like and `b` otherwise;
+`a || b` is `a` when `a` is true-like and `b` otherwise; `a` is always evaluated (so it is never dropped,
+whatever `b` is - e.g. a literal) -/
+theorem and_or_value (c : Caller) (a b : Expr) (env : Env) :
+    evalE c (.and_ a b) env = (evalE c a env >>= fun va => if isTrue va then evalE c b env else .ok va) ∧
+    evalE c (.or_ a b) env = (evalE c a env >>= fun va => if isTrue va then .ok va else evalE c b env) ∧
+    (∀ r, r ≠ .oof → (∀ v, r ≠ .ok v) → evalE c a env = r → evalE c (.and_ a b) env = r ∧ evalE c (.or_ a b) env = r) := by
+  refine ⟨by simp [evalE], by simp [evalE], ?_⟩
+  intro r _ hv h
+  cases r with
+  | ok v => exact absurd rfl (hv v)
+  | _ => simp [evalE, h]
 
 /-- `a && b` with `a` false: `b` is not evaluated -/
 theorem and_short_circuit (c : Caller) (a b b' : Expr) (env : Env) (va : Val)
